@@ -13,6 +13,7 @@ package openflow13
 import (
 	"github.com/contiv/libOpenflow/util"
 	vr "github.com/contiv/libOpenflow/verifrt"
+	"net"
 )
 
 func c03eq(m util.Message, ref []byte, what string) {
@@ -641,7 +642,18 @@ func VerifC03_SmallMessages() {
 		vr.Tag("kind", "PortMod")
 		p := NewPortMod(int(vr.U32("port")))
 		hw := vr.Bytes("hw", 6)
-		copy(p.HWAddr, hw)
+		switch vr.Choice("hwaddr", 3) {
+		case 0:
+			copy(p.HWAddr, hw)
+		case 1:
+			// the address left unset (a literal PortMod, or "any port address"): six zero bytes on the wire
+			p.HWAddr = nil
+			hw = make([]byte, 6)
+		default:
+			// a 3-byte prefix assigned: zero-filled to the 6-byte slot, later fields stay where they are
+			p.HWAddr = net.HardwareAddr(hw[:3:3])
+			hw = []byte{hw[0], hw[1], hw[2], 0, 0, 0}
+		}
 		p.Config, p.Mask, p.Advertise = vr.U32("config"), vr.U32("mask"), vr.U32("advertise")
 		c03header(w, 16, p.Xid)
 		w.u32(p.PortNo)
